@@ -17,16 +17,28 @@ load is replayed through the Lean model (`RefList.history`, Drivers/RefList.lean
 Case format (v2):
   {"v": 2,
    "mm": {"root": "none"|"head"|"tail", "prov": "any"|"exact"|"attr"|"cls",
+          "src": [S, S, S] — WHERE the scope provider of `targets` / `more` / `order` comes from (absent = all "reg"):
+                 "reg" a callable registered at the metamodel that postpones by counting (`sched`),
+                 "gram" an RREL expression written in the grammar (`[Item|ID|elems.(~to)*]`, attached to the
+                        cross-reference; nothing registered for the attribute),
+                 "regrrel" the same RREL expression registered at the metamodel (`Class.attr` / `*.attr`),
+                 "none" no provider at all (textX's default provider),
           "user": [rule names with a user class], "pool": bool (user classes recycle the instances of dropped
           models: identities recur), "tools": bool, "memo": bool},
    "loads": [{"drop": bool, "lead": str, "gap": str,
               "files": [{"imports": [file index..], "root": LIST?, "elems": [ELEM..]}..]}..]}
   ELEM = {"k": "item", "n": K}                                  defines item iK (K unique in the load)
-       | {"k": "plus"|"star"|"multi"|"bare"|"alt", "refs": [[A, K]..], "sched": [W..]}
+       | {"k": "ptr", "n": N, "to": ["i", K] | ["p", M]}        `ptr pN > iK|pM`: pointer to an item / to another
+                                                                 pointer of the same file (acyclic); `to` is a single
+                                                                 reference resolved by the RREL `elems.(~to)*`
+       | {"k": "plus"|"star"|"multi"|"bare"|"alt", "refs": [[A, K]..], "sched": [W..], "via": [N|-1..]?}
        | {"k": "box", "e": [ELEM..]}                            (no items inside)
   LIST = {"refs": [[2, K]..], "sched": [W..]}                    the root object's list `order`
   A = 0 (`targets`) | 1 (`more`) | 2 (`order`), K = item referred to (-1: an undefined name),
-  W = number of provider calls answered with Postponed (-1: always postponed).
+  W = number of provider calls answered with Postponed (-1: always postponed); only for "reg" attributes.
+  "via" (attributes with an RREL provider only): the reference is written as the NAME OF POINTER N; the RREL provider
+  walks over the pointer's `to` (`needs_to_be_resolved`) and answers Postponed as long as the resolver reports it
+  unresolved — the schedule is then imposed by the text, not by a counter; K is the item the chain ends at.
 The old format {"nitems", "lists": [{"kind", "refs", "more", "sched"}]} is still read (one load).
 """
 import gc
@@ -38,27 +50,48 @@ import tempfile
 from harness.core import Check, use_repo
 
 ATTRS = ["targets", "more", "order"]
-CLASS_OF = {"plus": "Plus", "star": "Star", "multi": "Multi", "bare": "Bare", "alt": "Alt", "box": "Box", "item": "Item"}
+CLASS_OF = {"plus": "Plus", "star": "Star", "multi": "Multi", "bare": "Bare", "alt": "Alt", "box": "Box", "item": "Item",
+            "ptr": "Ptr"}
+NONLIST = ("item", "ptr")
+RREL = "elems.(~to)*"
+SRCS = ("reg", "gram", "regrrel", "none")
+PTR_KEY = 10000  # object key of pointer N in the requests to the model: PTR_KEY + N, attribute 3 (`to`)
 USER_ABLE = ["Plus", "Star", "Multi", "Bare", "Alt", "Box", "Model", "Item"]
 LEADS = ["", " ", "\n", "// c\n", "/* é\U0001F600 */", "\n\n  "]
 GAPS = [" ", "", "\n", "  ", " /*c*/ ", "\t"]
 
 
+def src_of(mm, a):
+    """where the scope provider of list attribute `a` comes from"""
+    return (mm.get("src") or ["reg"] * 3)[a]
+
+
+def by_rrel(mm, a):
+    return src_of(mm, a) in ("gram", "regrrel")
+
+
+def logged(mm, a):
+    """the harness sees every call of the attribute's provider (it is, or wraps, the registered callable)"""
+    return src_of(mm, a) in ("reg", "regrrel")
+
+
 def grammar(mm):
-    head = "order*=[Item][','] ';'" if mm["root"] == "head" else ""
-    tail = "'order' order*=[Item]" if mm["root"] == "tail" else ""
+    t, m, o = (f"[Item|ID|{RREL}]" if src_of(mm, a) == "gram" else "[Item]" for a in range(3))
+    head = f"order*={o}[','] ';'" if mm["root"] == "head" else ""
+    tail = f"'order' order*={o}" if mm["root"] == "tail" else ""
     return rf"""
 Model: imports*=Import {head} elems*=Elem {tail};
 Import: 'import' importURI=STRING;
-Elem: Item | ListElem;
+Elem: Item | Ptr | ListElem;
 ListElem: Plus | Star | Multi | Alt | Box | Bare;
 Item: 'item' name=ID;
-Plus: 'plus' name=ID ':' targets+=[Item] ('&' more+=[Item][','])? ';';
-Star: 'star' name=ID ':' targets*=[Item][','] ';';
-Multi: 'multi' name=ID ':' targets=[Item] targets=[Item] (targets=[Item])? ';';
-Alt: 'alt' name=ID ':' ('+' targets+=[Item] | '!' more+=[Item])* ';';
+Ptr: 'ptr' name=ID '>' to=[Item|ID|{RREL}];
+Plus: 'plus' name=ID ':' targets+={t} ('&' more+={m}[','])? ';';
+Star: 'star' name=ID ':' targets*={t}[','] ';';
+Multi: 'multi' name=ID ':' targets={t} targets={t} (targets={t})? ';';
+Alt: 'alt' name=ID ':' ('+' targets+={t} | '!' more+={m})* ';';
 Box: 'box' name=ID '{{' elems*=ListElem '}}';
-Bare: targets+=[Item][','] ('&' more+=[Item][','])? ';';
+Bare: targets+={t}[','] ('&' more+={m}[','])? ';';
 Comment: /\/\/.*?$|\/\*(.|\n)*?\*\//;
 """
 
@@ -90,11 +123,13 @@ def norm(case):
 def valid_elem(e):
     k, refs = e["k"], e.get("refs", [])
     a = [r[0] for r in refs]
-    if k == "item":
+    if k in NONLIST:
         return True
     if k == "box":
-        return all(c["k"] != "item" and valid_elem(c) for c in e["e"])
+        return all(c["k"] not in NONLIST and valid_elem(c) for c in e["e"])
     if len(e["sched"]) != len(refs) or any(x not in (0, 1) for x in a):
+        return False
+    if "via" in e and len(e["via"]) != len(refs):
         return False
     if k in ("plus", "bare"):
         return a.count(0) >= 1 and a == sorted(a)
@@ -116,12 +151,58 @@ def lists_of_file(f, mm):
         for e in es:
             if e["k"] == "box":
                 go(e["e"])
-            elif e["k"] != "item":
+            elif e["k"] not in NONLIST:
                 n[0] += 1
                 out.append((n[0], e))
 
     go(f["elems"])
     return out
+
+
+def ptrs_of(f):
+    return {e["n"]: e["to"] for e in f["elems"] if e["k"] == "ptr"}
+
+
+def chase(ptrs, n):
+    """the item the chain of pointer `n` ends at (None: dangling / cyclic)"""
+    seen = set()
+    while n in ptrs and n not in seen:
+        seen.add(n)
+        kind, x = ptrs[n]
+        if kind == "i":
+            return x
+        n = x
+    return None
+
+
+def via_of(l, j, mm):
+    """pointer through which reference j of the list is written (-1: by the item's own name)"""
+    a, t = l["refs"][j]
+    v = (l.get("via") or [])
+    return v[j] if j < len(v) and v[j] >= 0 and t >= 0 and by_rrel(mm, a) else -1
+
+
+def ref_targets(f, l, mm):
+    """[(attr, item)] of the list: what its references are to resolve to"""
+    ptrs = ptrs_of(f)
+    out = []
+    for j, (a, t) in enumerate(l["refs"]):
+        v = via_of(l, j, mm)
+        out.append((a, t if v < 0 else chase(ptrs, v)))
+    return out
+
+
+def dangling(case):
+    """a pointer / `via` that leads nowhere (shrinking must not produce it)"""
+    for load in case["loads"]:
+        for f in load["files"]:
+            ptrs = ptrs_of(f)
+            if any(chase(ptrs, n) is None for n in ptrs):
+                return True
+            for _, l in lists_of_file(f, case["mm"]):
+                if any(t is None for _, t in ref_targets(f, l, case["mm"])):
+                    return True
+    return False
 
 
 def expected_lists(f, mm):
@@ -130,7 +211,7 @@ def expected_lists(f, mm):
     for key, l in lists_of_file(f, mm):
         kinds = {2} if key == 0 else ({0, 1} if l["k"] in ("plus", "bare", "alt") else {0})
         for a in kinds:
-            exp[(key, a)] = [t for (x, t) in l["refs"] if x == a]
+            exp[(key, a)] = [t for (x, t) in ref_targets(f, l, mm) if x == a]
     return exp
 
 
@@ -142,8 +223,16 @@ def load_fails(load, mm):
     return False
 
 
+def zero_unscheduled(load, mm):
+    """only a "reg" provider counts its calls: the `sched` entry of any other reference means nothing"""
+    for f in load["files"]:
+        for _, l in lists_of_file(f, mm):
+            l["sched"] = [w if src_of(mm, a) == "reg" else 0 for (a, _), w in zip(l["refs"], l["sched"])]
+
+
 def rank_waits(load, mm):
     """a round in which nothing resolves ends the resolver loop: make the waits of a load contiguous 0..m"""
+    zero_unscheduled(load, mm)
     ls = [l for f in load["files"] for _, l in lists_of_file(f, mm)]
     vals = sorted({w for l in ls for w in l["sched"] if w >= 0})
     rank = {w: i for i, w in enumerate(vals)}
@@ -152,27 +241,40 @@ def rank_waits(load, mm):
 
 
 def render_file(fi, f, load, mm):
-    """text of one model file and its references:
-    [{"file", "obj", "attr", "j", "pos", "tgt", "wait"}] in textual order"""
+    """text of one model file and its references — those of the list attributes and the `to` of the pointers
+    ("ptr": True, object PTR_KEY + N, attribute 3):
+    [{"file", "obj", "attr", "j", "pos", "tgt", "wait", "dep"}] in textual order; "dep" = index (in this list) of
+    the pointer reference the RREL provider of the reference walks over, or None"""
+    ptrs = ptrs_of(f)
     toks = []  # (text, ref record or None)
     for j in f["imports"]:
         toks += [("import", None), (f'"f{j}.m"', None)]
     counter = [0]
     names = [0]
 
-    def ref(key, a, j, t, w):
-        toks.append((f"i{t}" if t >= 0 else "nx", {"file": fi, "obj": key, "attr": a, "j": j, "tgt": t, "wait": w}))
+    def ref(key, a, j, t, w, via=-1):
+        if via >= 0:
+            t = chase(ptrs, via)
+        toks.append((f"p{via}" if via >= 0 else f"i{t}" if t >= 0 else "nx",
+                     {"file": fi, "obj": key, "attr": a, "j": j, "tgt": t, "via": via,
+                      "wait": w if src_of(mm, a) == "reg" else 0}))
 
     def emit_root(l):
         for j, ((a, t), w) in enumerate(zip(l["refs"], l["sched"])):
             if j and mm["root"] == "head":
                 toks.append((",", None))
-            ref(0, 2, j, t, w)
+            ref(0, 2, j, t, w, via_of(l, j, mm))
 
     def emit(e):
         k = e["k"]
         if k == "item":
             toks.extend([("item", None), (f"i{e['n']}", None)])
+            return
+        if k == "ptr":
+            kind, x = e["to"]
+            toks.extend([("ptr", None), (f"p{e['n']}", None), (">", None),
+                         (f"{kind}{x}", {"file": fi, "obj": PTR_KEY + e["n"], "attr": 3, "j": 0, "ptr": True,
+                                         "tgt": chase(ptrs, e["n"]), "via": x if kind == "p" else -1, "wait": 0})])
             return
         names[0] += 1
         if k == "box":
@@ -187,7 +289,7 @@ def render_file(fi, f, load, mm):
             toks.extend([(k, None), (f"L{names[0]}", None), (":", None)])
         idx = [0, 0]
         prev = None
-        for (a, t), w in zip(e["refs"], e["sched"]):
+        for n, ((a, t), w) in enumerate(zip(e["refs"], e["sched"])):
             if k == "alt":
                 if a != prev:
                     toks.append(("+" if a == 0 else "!", None))
@@ -195,7 +297,7 @@ def render_file(fi, f, load, mm):
                 toks.append(("&", None))
             elif idx[a] and (k in ("star", "bare") or a == 1):
                 toks.append((",", None))
-            ref(key, a, idx[a], t, w)
+            ref(key, a, idx[a], t, w, via_of(e, n, mm))
             idx[a] += 1
             prev = a
         toks.append((";", None))
@@ -225,7 +327,36 @@ def render_file(fi, f, load, mm):
             refs.append(dict(rec, pos=len(text)))
         text += tok
         prev = tok
+    where = {r["obj"] - PTR_KEY: n for n, r in enumerate(refs) if r.get("ptr")}
+    for r in refs:
+        r["dep"] = where.get(r["via"]) if r["via"] >= 0 else None
     return text + "\n", refs
+
+
+def list_refs(refs):
+    return [r for r in refs if not r.get("ptr")]
+
+
+def rounds_of(refs):
+    """the resolver round in which each reference of a file resolves (None: never).  A counting provider answers on
+    call number `wait`; an RREL provider that walks over a pointer answers once the resolver reports the pointer's
+    `to` resolved, which it does from the round AFTER the one that resolved it (`parser._crossrefs` is replaced at
+    the end of a pass)"""
+    memo = {}
+
+    def go(n, depth=0):
+        if n not in memo:
+            r = refs[n]
+            if r["wait"] < 0 or r["tgt"] is None or r["tgt"] < 0 or depth > len(refs):
+                memo[n] = None
+            elif r["dep"] is None:
+                memo[n] = r["wait"]
+            else:
+                d = go(r["dep"], depth + 1)
+                memo[n] = None if d is None else max(r["wait"], d + 1)
+        return memo[n]
+
+    return [go(n) for n in range(len(refs))]
 
 
 def make_user_class(name, pooled):
@@ -267,14 +398,27 @@ def recycle(models):
         go(m)
 
 
-def provider_keys(style):
+OWNERS = {"Plus": [0, 1], "Star": [0], "Multi": [0], "Bare": [0, 1], "Alt": [0, 1], "Model": [2]}
+
+
+def provider_keys(style, mm=None, want="reg"):
+    """registration keys of the providers of the attributes whose source is `want`.  A key that covers several
+    attributes (`*.*`, `Class.*`) is only right when every attribute it would be looked up for is meant to get this
+    provider; an RREL expression in the grammar takes precedence over any registration, so "gram" does not count"""
+    mm = mm or {}
+    mine = [a for a in range(3) if src_of(mm, a) == want]
+    others = [a for a in range(3) if src_of(mm, a) not in (want, "gram")]
+    if not mine:
+        return []
+    if others and style in ("any", "cls"):
+        style = "exact"
     if style == "any":
         return ["*.*"]
-    owners = {"Plus": [0, 1], "Star": [0], "Multi": [0], "Bare": [0, 1], "Alt": [0, 1], "Model": [2]}
     keys = set()
-    for cls, attrs in owners.items():
+    for cls, attrs in OWNERS.items():
         for a in attrs:
-            keys.add({"exact": f"{cls}.{ATTRS[a]}", "attr": f"*.{ATTRS[a]}", "cls": f"{cls}.*"}[style])
+            if a in mine:
+                keys.add({"exact": f"{cls}.{ATTRS[a]}", "attr": f"*.{ATTRS[a]}", "cls": f"{cls}.*"}[style])
     return sorted(keys)
 
 
@@ -297,11 +441,18 @@ class Prop(Check):
             "two list attributes per object in sequence or interleaved, root-object list, keyword-less list rule, lists in "
             "containers) of <=6 references, a random postponement schedule (0..3 rounds per reference), random layout "
             "(lists before/after/between the items, leading blank/comment/nothing incl. a reference at offset 0, token "
-            "gaps) and metamodel configuration (provider key style, user classes, tool support, memoization); "
+            "gaps) and metamodel configuration (provider key style, user classes, tool support, memoization); the SOURCE "
+            "of each list attribute's scope provider is generated too: callable registered at the metamodel (counting "
+            "schedule) / RREL expression in the grammar / the same RREL registered / none (default provider), incl. "
+            "metamodels nobody registered anything at; RREL references go through pointers (chains of <=4 links) so that "
+            "the RREL provider itself postpones them round after round; "
             "non-trivial = some reference is resolved after a textually later one of the same list")
     MODELLED = ("hand-modelled: model.py resolve_one_step list branch at the level of _list_ref_positions / attribute lists "
                 "(RefList.resolve/run/history; fused form Resolve.insertByPos/listAfter); tie X: every list of every load "
                 "vs model replay of the observed resolution sequences; schedules are arbitrary (history-dependent); "
+                "loop model under the case's schedule = Resolve.loopO with depOracle (counting + needs_to_be_resolved "
+                "dependencies with the stale _crossrefs of a running pass), its sequence compared for the providers the "
+                "harness can watch, its lists for all; "
                 "not exhibited: a global model repository shared by the loads, references created by tools (no position)")
 
     # ------------------------------------------------------------------ generator
@@ -309,7 +460,23 @@ class Prop(Check):
         for _ in range(n):
             yield self.gen_one(rng)
 
-    def gen_list(self, rng, kind, items, sched_w):
+    def gen_list(self, rng, kind, items, sched_w, mm=None, own=None, ptrs=()):
+        """`own` / `ptrs`: the items / pointers of the list's own file — what a provider other than the registered
+        callable (RREL without `+m`, the default provider) can see"""
+        l = self.gen_list0(rng, kind, items, sched_w)
+        mm = mm or {}
+        if any(src_of(mm, a) != "reg" for a in range(3)):
+            pv = rng.choice([0.0, 0.3, 0.6, 0.9])
+            l["via"] = [-1] * len(l["refs"])
+            for j, (a, _) in enumerate(l["refs"]):
+                if src_of(mm, a) != "reg":
+                    l["refs"][j][1] = rng.choice(own)
+                    if by_rrel(mm, a) and ptrs and rng.chance(pv):
+                        l["via"][j] = rng.choice(list(ptrs))
+                        l["refs"][j][1] = chase(dict(ptrs), l["via"][j])
+        return l
+
+    def gen_list0(self, rng, kind, items, sched_w):
         pick = lambda: rng.choice(items)  # noqa: E731
         if kind == "multi":
             refs = [[0, pick()] for _ in range(rng.randint(2, 3))]
@@ -325,6 +492,9 @@ class Prop(Check):
 
     def gen_load(self, rng, mm, may_fail, bulk=False):
         nfiles = 1 if bulk else rng.weighted([(1, 15), (2, 3), (3, 2)])
+        if all(src_of(mm, a) != "reg" for a in range(3)):
+            nfiles = 1  # the imports are loaded by the registered callable (wrapped in ImportURI)
+        nptr = [0]
         nitems = rng.randint(1, 4)
         owner = [rng.below(nfiles) for _ in range(nitems)]
         for fi in range(nfiles):  # no empty file (it would yield a str model)
@@ -338,19 +508,36 @@ class Prop(Check):
             if fi + 1 < nfiles:
                 imports = [j for j in range(fi + 1, nfiles) if rng.chance(0.5)]
             its = [{"k": "item", "n": k} for k in items if owner[k] == fi]
+            own = [k for k in items if owner[k] == fi]
+            ptrs = {}
+            if any(by_rrel(mm, a) for a in range(3)):
+                # pointers: to an item of the file or to an earlier pointer (chains: one more round per link)
+                for _ in range(rng.weighted([(0, 1), (1, 3), (2, 3), (3, 2), (4, 1)])):
+                    n = nptr[0]
+                    nptr[0] += 1
+                    ptrs[n] = ["p", rng.choice(sorted(ptrs))] if ptrs and rng.chance(0.4) else ["i", rng.choice(own)]
             lists = []
             for _ in range(rng.randint(8, 16) if bulk else rng.randint(1, 3) if fi == 0 else rng.randint(0, 2)):
                 kind = rng.weighted([("plus", 4), ("star", 2), ("multi", 1), ("bare", 2), ("alt", 2)])
-                lists.append(self.gen_list(rng, kind, items, sched_w))
+                lists.append(self.gen_list(rng, kind, items, sched_w, mm, own, ptrs))
             if len(lists) >= 2 and rng.chance(0.2):
                 lists = [{"k": "box", "e": lists[:-1]}, lists[-1]] if rng.chance(0.5) else [{"k": "box", "e": lists}]
             order = rng.weighted([("items-first", 4), ("lists-first", 3), ("mixed", 3)])
             elems = its + lists if order == "items-first" else lists + its if order == "lists-first" else rng.shuffle(its + lists)
+            for n, to in ptrs.items():  # anywhere between the top-level elements, in any order
+                elems.insert(rng.below(len(elems) + 1), {"k": "ptr", "n": n, "to": to})
             f = {"imports": imports, "elems": elems}
             if mm["root"] != "none":
                 k = rng.randint(0, 5)
                 f["root"] = {"refs": [[2, rng.choice(items)] for _ in range(k)],
                              "sched": [rng.weighted(sched_w) for _ in range(k)]}
+                if src_of(mm, 2) != "reg":
+                    f["root"]["refs"] = [[2, rng.choice(own)] for _ in range(k)]
+                    f["root"]["via"] = [-1] * k
+                    for j in range(k):
+                        if by_rrel(mm, 2) and ptrs and rng.chance(0.5):
+                            f["root"]["via"][j] = rng.choice(sorted(ptrs))
+                            f["root"]["refs"][j][1] = chase(ptrs, f["root"]["via"][j])
             files.append(f)
         for fi in range(1, nfiles):  # every file is reachable from the main one
             if not any(fi in files[j]["imports"] for j in range(fi)):
@@ -364,8 +551,10 @@ class Prop(Check):
             if ls:
                 l = rng.choice(ls)
                 j = rng.below(len(l["refs"]))
-                if rng.chance(0.5):
+                if rng.chance(0.5) or src_of(mm, l["refs"][j][0]) != "reg":
                     l["refs"][j][1] = -1
+                    if "via" in l:
+                        l["via"][j] = -1
                 else:
                     l["sched"][j] = -1
         rank_waits(load, mm)
@@ -381,7 +570,7 @@ class Prop(Check):
             for _, l in lists_of_file(f, mm):
                 for j, (a, t) in enumerate(l["refs"]):
                     if t < 0:
-                        l["refs"][j][1] = 0
+                        l["refs"][j][1] = min(e["n"] for e in f["elems"] if e["k"] == "item")
                 l["sched"] = [rng.weighted(sched_w) for _ in l["refs"]]
         load["drop"] = rng.chance(0.7)
         rank_waits(load, mm)
@@ -393,6 +582,15 @@ class Prop(Check):
               "user": rng.subset(USER_ABLE, 0.5) if rng.chance(0.3) else [],
               "tools": rng.chance(0.2), "memo": rng.chance(0.15)}
         mm["pool"] = bool(mm["user"]) and rng.chance(0.6)
+        # WHERE the scope provider comes from (the property speaks of "a scope provider", not of a registered one):
+        # registered callable / RREL in the grammar / RREL registered / none (default provider), per list attribute
+        how = rng.weighted([("reg", 9), ("gram", 4), ("unregistered", 2), ("each", 5)])
+        if how == "gram":
+            mm["src"] = ["gram"] * 3
+        elif how == "unregistered":  # nothing registered at the metamodel at all
+            mm["src"] = [rng.choice(["gram", "none"]) for _ in range(3)]
+        elif how == "each":
+            mm["src"] = [rng.weighted([("reg", 3), ("gram", 3), ("regrrel", 2), ("none", 1)]) for _ in range(3)]
         # state that outlives a load is typically keyed by object identity, and CPython hands the id() of a
         # collected object out again: "bulk" histories reload models with many list-holding objects so that
         # identities of dropped models do recur
@@ -470,16 +668,39 @@ class Prop(Check):
             cur["none_for"] = id(obj_ref)
             return None
 
+        from textx.scoping.rrel import create_rrel_scope_provider
+
+        rrel = create_rrel_scope_provider(RREL)
+
+        def rrel_logged(obj, attr, obj_ref):
+            """the RREL provider, registered: the harness sees what it answers"""
+            res = rrel(obj, attr, obj_ref)
+            if res is not None and type(res) is not Postponed:
+                fi = file_index(get_model(obj))
+                rec = cur["table"].get((fi, obj_ref.position))
+                if rec is None or ATTRS[rec["attr"]] != attr.name:
+                    raise UnknownPosition(f"file {fi}: reference {obj_ref.obj_name!r} of {attr.name} reported at "
+                                          f"position {obj_ref.position}, where no such reference is written")
+                cur["ids"].add(id(obj))
+                cur["log"].append([fi, rec["obj"], rec["attr"], rec["j"], rec["pos"], rec["tgt"]])
+            return res
+
         multi = any(len(l["files"]) > 1 for l in case["loads"])
         prov = sp.ImportURI(provider) if multi else provider
-        mm.register_scope_providers({k: prov for k in provider_keys(mmo["prov"])})
+        reg = {k: prov for k in provider_keys(mmo["prov"], mmo)}
+        style = mmo["prov"] if mmo["prov"] in ("exact", "attr") else "exact"
+        reg.update({k: rrel_logged for k in provider_keys(style, mmo, "regrrel")})
+        if multi and not any(v is prov for v in reg.values()):
+            reg["Import.*"] = prov  # never asked (an Import holds no reference), but it loads the imported files
+        if reg:  # else: a metamodel nobody registered a provider at
+            mm.register_scope_providers(reg)
 
         out = []
         keep = []
         dropped_ids = set()
         for load in case["loads"]:
             rendered = [render_file(fi, f, load, mmo) for fi, f in enumerate(load["files"])]
-            table = {(r["file"], r["pos"]): r for _, refs in rendered for r in refs}
+            table = {(r["file"], r["pos"]): r for _, refs in rendered for r in list_refs(refs)}
             cur.clear()
             cur.update(table=table, calls={}, log=[], total=0, ids=set(), limit=10 * (len(table) + 2))
             o = {}
@@ -552,7 +773,7 @@ class Prop(Check):
                         raise ValueError(f"object {type(o).__name__} for element {e['k']}")
                     if e["k"] == "box":
                         go(o.elems, e["e"])
-                    elif e["k"] != "item":
+                    elif e["k"] not in NONLIST:
                         objs.append(o)
 
             go(m.elems, f["elems"])
@@ -571,7 +792,7 @@ class Prop(Check):
         for load, o in zip(case["loads"], obs["loads"]):
             if o["outcome"] != "ok":
                 continue
-            for fi in range(len(load["files"])):
+            for fi in range(len(load["files"])):  # (lists of providers the harness cannot watch are not in the log)
                 runs.append([[obj, a, pos, t] for (f, obj, a, j, pos, t) in o["log"] if f == fi])
         # the same loads as *schedules*: the model runs the Postponed loop itself (`Resolve.loopO` with the wait
         # counts of the case) instead of replaying the observed sequence; references per file in textual order
@@ -579,7 +800,7 @@ class Prop(Check):
         for load, o in zip(case["loads"], obs["loads"]):
             if o["outcome"] != "ok" or load_fails(load, case["mm"]):
                 continue
-            loads.append([[[r["obj"], r["attr"], r["pos"], r["tgt"], r["wait"]]
+            loads.append([[[r["obj"], r["attr"], r["pos"], r["tgt"], r["wait"], 0 if r["dep"] is None else r["dep"] + 1]
                            for r in render_file(fi, f, load, case["mm"])[1]]
                           for fi, f in enumerate(load["files"])])
         return {"op": "history", "runs": runs, "loads": loads}
@@ -595,7 +816,7 @@ class Prop(Check):
             for fi in range(len(load["files"])):
                 want = {f"{fi}:{obj}:{a}": v for obj, a, v in next(runs)}
                 for key, got in sorted(o["lists"].items()):
-                    if key.startswith(f"{fi}:") and got != want.get(key, []):
+                    if key.startswith(f"{fi}:") and logged(case["mm"], int(key.split(":")[2])) and got != want.get(key, []):
                         return (f"load {li} list {key}: implementation {got}, model replay of the resolution "
                                 f"sequence {want.get(key, [])}")
         # the loop model under the case's schedule: same resolution sequence per resolver, same lists
@@ -610,9 +831,10 @@ class Prop(Check):
                 return f"load {li} succeeded but the loop model leaves {m['pending']} references pending"
             for fi, mf in enumerate(m["files"]):
                 seen = [[obj, a, pos] for (f, obj, a, j, pos, t) in o["log"] if f == fi]
-                if seen != mf["seq"]:
+                pred = [x for x in mf["seq"] if x[1] < 3 and logged(case["mm"], x[1])]
+                if seen != pred:
                     return (f"load {li} file {fi}: references resolved in the order {seen} [obj, attr, pos], the loop "
-                            f"model under the same schedule resolves {mf['seq']}")
+                            f"model under the same schedule resolves {pred}")
                 want = {f"{fi}:{obj}:{a}": v for obj, a, v in mf["lists"]}
                 for key, got in sorted(o["lists"].items()):
                     if key.startswith(f"{fi}:") and got != want.get(key, []):
@@ -632,10 +854,24 @@ class Prop(Check):
                     got = o["lists"].get(f"{fi}:{key}:{a}")
                     if got != want:
                         return (f"load {li} file {fi} object {key}: {ATTRS[a]} = {got} but the references are "
-                                f"written in the order {want}")
+                                f"written in the order {want} (provider of the attribute: {src_of(case['mm'], a)})")
         return None
 
     def nontrivial(self, case, obs):
+        case = norm(case)
+        for load, o in zip(case["loads"], obs.get("loads", [])):
+            if o.get("outcome") != "ok":
+                continue
+            # providers the harness cannot watch: the rounds follow from the text
+            for fi, f in enumerate(load["files"]):
+                refs = render_file(fi, f, load, case["mm"])[1]
+                last = {}
+                for r, rnd in zip(refs, rounds_of(refs)):
+                    k = (r["obj"], r["attr"])
+                    if not r.get("ptr") and rnd is not None:
+                        if last.get(k, -1) > rnd:
+                            return True
+                        last[k] = max(last.get(k, -1), rnd)
         for o in obs.get("loads", []):
             last = {}
             for (fi, obj, a, j, pos, t) in o.get("log", []):
@@ -648,7 +884,10 @@ class Prop(Check):
         ev = {"histories": 0, "loads": 0, "loads_after_a_dropped_one": 0, "loads_reusing_object_ids": 0,
               "multi_file_loads": 0, "failing_loads": 0, "references_at_offset_0": 0,
               "offset_0_reference_resolved_late": 0, "user_class_cases": 0,
-              "pooled_identity_cases": 0}
+              "pooled_identity_cases": 0, "metamodels_without_registered_provider": 0,
+              "loads_with_rrel_in_grammar": 0, "references_postponed_by_rrel": 0,
+              "lists_out_of_order_by_rrel_in_grammar": 0, "lists_by_default_provider": 0,
+              "lists_with_two_provider_sources": 0}
         for c, o in zip(cases, obs):
             if not isinstance(o, dict) or "loads" not in o:
                 continue
@@ -656,6 +895,29 @@ class Prop(Check):
             ev["histories"] += len(c["loads"]) > 1
             ev["user_class_cases"] += bool(c["mm"]["user"])
             ev["pooled_identity_cases"] += bool(c["mm"].get("pool"))
+            srcs = [src_of(c["mm"], a) for a in range(3)]
+            ev["metamodels_without_registered_provider"] += all(x in ("gram", "none") for x in srcs)
+            for load, lo in zip(c["loads"], o["loads"]):
+                if lo["outcome"] != "ok":
+                    continue
+                ev["loads_with_rrel_in_grammar"] += "gram" in srcs
+                for fi, f in enumerate(load["files"]):
+                    refs = render_file(fi, f, load, c["mm"])[1]
+                    rnds = rounds_of(refs)
+                    late = {}
+                    for r, rnd in zip(refs, rnds):
+                        if r.get("ptr") or rnd is None:
+                            continue
+                        ev["references_postponed_by_rrel"] += r["dep"] is not None
+                        k = (r["obj"], r["attr"])
+                        if src_of(c["mm"], r["attr"]) == "gram" and late.get(k, -1) > rnd:
+                            late[k] = 10 ** 6
+                        late[k] = max(late.get(k, -1), rnd)
+                    ev["lists_out_of_order_by_rrel_in_grammar"] += sum(v >= 10 ** 6 for v in late.values())
+                    for key, l in lists_of_file(f, c["mm"]):
+                        used = {src_of(c["mm"], a) for a, _ in l["refs"]}
+                        ev["lists_by_default_provider"] += "none" in used
+                        ev["lists_with_two_provider_sources"] += len(used) > 1
             dropped = False
             for load, lo in zip(c["loads"], o["loads"]):
                 ev["loads"] += 1
@@ -679,6 +941,8 @@ class Prop(Check):
         case = norm(case)
         for c in self._shrink(case):
             c = copy.deepcopy(c)
+            if dangling(c):
+                continue
             for load in c["loads"]:
                 rank_waits(load, c["mm"])
             yield c
@@ -694,6 +958,14 @@ class Prop(Check):
         for k, v in dflt.items():
             if case["mm"].get(k) != v:
                 yield dict(case, mm=dict(case["mm"], **{k: v}))
+        src = case["mm"].get("src")
+        if src and not any(len(ld["files"]) > 1 for ld in loads):
+            # (another provider source changes which items are visible from another file)
+            if any(x != "reg" for x in src):
+                yield dict(case, mm={k: v for k, v in case["mm"].items() if k != "src"})
+            for a in range(3):
+                if src[a] != "reg":
+                    yield dict(case, mm=dict(case["mm"], src=src[:a] + ["reg"] + src[a + 1:]))
         for li, load in enumerate(loads):
             for k, v in (("gap", " "), ("drop", False)):
                 if load.get(k) != v:
@@ -706,7 +978,7 @@ class Prop(Check):
                     for e in es:
                         if e["k"] == "box":
                             go(e["e"])
-                        elif e["k"] != "item":
+                        elif e["k"] not in NONLIST:
                             out.append(e)
 
                 for f in ld["files"]:
@@ -729,6 +1001,8 @@ class Prop(Check):
                     l2 = lists(ld)[n]
                     del l2["refs"][j]
                     del l2["sched"][j]
+                    if "via" in l2:
+                        del l2["via"][j]
                     if "k" not in l2 or valid_elem(l2):
                         yield dict(case, loads=loads[:li] + [ld] + loads[li + 1:])
 
